@@ -397,8 +397,38 @@ static void test_9500() {
   G::out("n 12 %d", called([&]{ mk.fstr(s2); }));
 }
 static G::Reg reg_9500(9500, &test_9500);
+// *m judges the pointee itself (a derived object behind a base-class pointer is not sliced); MEMBER_IS looks at the member
+// whatever the object as a whole compares equal to
+struct Shape { virtual ~Shape() = default; virtual int corners() const { return 0; } };
+struct Tri : Shape { int corners() const override { return 3; } };
+static auto has_corners(int n)
+{
+  return trompeloeil::make_matcher<trompeloeil::wildcard>(
+    [](Shape const& s, int k) { return s.corners() == k; },
+    [](std::ostream& os, int k) { os << " with " << k << " corners"; }, n);
+}
+struct Span { int const* p; int len; bool operator==(std::nullptr_t) const { return p == nullptr; } bool operator!=(std::nullptr_t) const { return p != nullptr; } };
+static void test_9501() {
+  Tri tri; Shape plain;
+  Shape* pt = &tri; Shape* pp = &plain; Shape* pn = nullptr;
+  std::unique_ptr<Shape> ut(new Tri);
+  G::out("n 20 %d", trompeloeil::param_matches(*has_corners(3), std::ref(pt)) ? 1 : 0);
+  G::out("n 21 %d", trompeloeil::param_matches(*has_corners(3), std::ref(pp)) ? 1 : 0);
+  G::out("n 22 %d", trompeloeil::param_matches(*has_corners(3), std::ref(pn)) ? 1 : 0);
+  G::out("n 23 %d", trompeloeil::param_matches(*has_corners(3), std::ref(ut)) ? 1 : 0);
+  G::out("n 24 %d", trompeloeil::param_matches(!*has_corners(3), std::ref(pt)) ? 1 : 0);
+  G::out("n 25 %d", trompeloeil::param_matches(*trompeloeil::any_of(has_corners(4), has_corners(3)), std::ref(pt)) ? 1 : 0);
+  Span empty{nullptr, 0}; int one = 1; Span full{&one, 1};
+  G::out("n 26 %d", trompeloeil::param_matches(MEMBER_IS(&Span::len, trompeloeil::eq(0)), std::ref(empty)) ? 1 : 0);
+  G::out("n 27 %d", trompeloeil::param_matches(MEMBER_IS(&Span::len, trompeloeil::eq(1)), std::ref(empty)) ? 1 : 0);
+  G::out("n 28 %d", trompeloeil::param_matches(MEMBER_IS(&Span::len, trompeloeil::eq(1)), std::ref(full)) ? 1 : 0);
+  G::out("n 29 %d", trompeloeil::param_matches(!MEMBER_IS(&Span::len, trompeloeil::gt(0)), std::ref(empty)) ? 1 : 0);
+  G::out("n 30 %d", trompeloeil::param_matches(trompeloeil::all_of(MEMBER_IS(&Span::len, trompeloeil::lt(1)), MEMBER_IS(&Span::p, trompeloeil::eq(nullptr))), std::ref(empty)) ? 1 : 0);
+}
+static G::Reg reg_9501(9501, &test_9501);
 '''
 NAMED_EXPECT = [1, 1, 0, 1, 1, 1, 1, 1, 1, 0, 1, 1, 0]
+NAMED_EXPECT2 = {20: 1, 21: 0, 22: 0, 23: 1, 24: 0, 25: 1, 26: 1, 27: 0, 28: 1, 29: 1, 30: 1}
 
 
 def run(prop, tier, seed):
@@ -470,7 +500,13 @@ def run(prop, tier, seed):
             if named_got.get(i) != want:
                 v.violation('mismatch|named-reuse', 'named matcher reused after composition: check %d gives %s, expected %s (see NAMED in vlib/gen_match.py)' % (i, named_got.get(i), want),
                             dict(engine='gen_match', scene='named matcher composed and reused', got=named_got))
-    if len(done - {9500}) < len(trees) and not (rc != 0 or to):
+    if 9501 in done:
+        for i, want in sorted(NAMED_EXPECT2.items()):
+            comparisons += 1
+            if named_got.get(i) != want:
+                v.violation('mismatch|pointee-or-member', 'derived pointee under *m / MEMBER_IS on a null-comparable object: check %d gives %s, expected %s (see test_9501 in vlib/gen_match.py)' % (i, named_got.get(i), want),
+                            dict(engine='gen_match', scene='test_9501', got=named_got))
+    if len(done - {9500, 9501}) < len(trees) and not (rc != 0 or to):
         v.inconclusive.append('only %d of %d tests ran' % (len(done), len(trees)))
     v.coverage = dict(evaluations=comparisons, distinct_nontrivial=len(nontriv),
                       rule='one evaluation = one (matcher tree, value, application mode) comparison of the real matcher with the mathematical predicate; modes: param_matches on int / int* / unique_ptr / shared_ptr / a user-written handle type / struct / std::string / char const* (incl. null) / string_view sub-range of a longer buffer / std::string with an embedded NUL and as the parameter of a real mock call (accepted vs no-match report); distinct non-trivial = distinct tree that accepts some and rejects some values of its domain',
